@@ -120,6 +120,64 @@ CLAIMED.update({
                 technique="TLA+ state machine + operator laws, TLC; schedule replay without wall-clock time-outs; TLC trace validation"),
 })
 
+CLAIMED.update({
+    "C11": _table("ScanEqualsModel: after every create / append / overwrite of 1-2 row batches the ordered scan of the latest version "
+                  "equals the concatenation of the batches since the last overwrite (values, NULLs, order), new fragments get fresh ids "
+                  "and consecutive row ids; histories are generated by TLC and replayed under 18 write-knob assignments (rows per file "
+                  "1/2/unlimited, rows per group 1/1024, storage versions legacy/2.0/2.1).", "DESIGN.md 5 (C11)"),
+    "C15": _table("After every generated history (append, delete, update, upsert, compact, restore; stable row ids on and off) the driver "
+                  "takes every position, every stable row id and every address once, all of them in reverse order, duplicates, and one "
+                  "offset past the end; TLC compares each result with the rows of the observed scan (TakeEqualsScan, TakeRowsEqualsScan); "
+                  "OffsetMapper::map_offset is checked exhaustively against OffsetMapOps.tla in the C34 run.", "DESIGN.md 5 (C15)"),
+    "C33": dict(category="model_checking",
+        text="Manifest names are specified character by character over decimal numerals (u64::MAX - v, 20-digit padding, detached "
+             "bit 2^63, byte-wise name order); TLC checks the naming laws (round trip for both schemes, detached never parses as "
+             "attached, V2 names sort in reverse version order) and model-checks the design of latest-version discovery, "
+             "list_manifest_locations and migrate_scheme_to_v2 for every directory content of <= 3 (thorough 4) entries out of 18 "
+             "(published V1/V2, detached, staging, temporary, multipart, junk) and every listing order on lexically ordered, "
+             "unordered and local stores (ResolveExact, ListExact, MigratePreserves). The same finite universe is then executed on "
+             "the real ManifestNamingScheme / CommitHandler / migrate functions (in-memory store, a store with forced listing "
+             "order, real directories) under five u64 embeddings (0, 1, 9/10, 2^32, 2^63-1, 2^63, 10^19, u64::MAX) and every "
+             "recorded call is judged by TLC; a Dataset-level commit/checkout_latest scenario confirms reachability through the "
+             "public API.",
+        design_ref="DESIGN.md 3.9, 5 (C33), Appendix B (readers), 8 item 8",
+        note="exactness is claimed for single-scheme directories plus staging/temporary/multipart files; junk names, mixed V1+V2 "
+             "and detached-in-V1 directories are recorded and counted but not judged; local readdir order is not forced; trusted: "
+             "object_store InMemory/LocalFileSystem, TLC",
+        technique="TLA+ operator laws + TLC model check of the discovery design; exhaustive implementation replay over the "
+                  "spec-defined universe with TLC trace validation; named deviations (V2InScanArm, UnwrapNone) classify failures"),
+    "C34": dict(category="model_checking",
+        text="TLC checks the design-level model of RowIdSequence / U64Segment / rechunk_sequences / RowIdIndex (RowIdSeq.tla: encoded "
+             "segments next to a ghost plain list; IterIsGhost, QueriesAgree, RechunkAgrees, ChoiceSound, IndexIsInverse, whatever encoding "
+             "each segment is in). Every operation of the real code is then called on the complete universe of small id lists (all orders, "
+             "all splits into <=3 segments incl. empty ones, each of the five encodings forced or chosen, all delete sets incl. repeated ids, "
+             "all mask position lists in any order, all slices / sorted selections / chunk-size lists that do and do not sum to the length, "
+             "all fragment layouts of <=3 fragments with deletion vectors and update-style duplicates), stretched into u64 by eight "
+             "order-preserving run embeddings, plus seeded random operation chains; each recorded call is judged by TLC against the "
+             "plain-list semantics (Trace_RowIdSeq.tla).",
+        design_ref="DESIGN.md 3.9, 5 (C34)",
+        note="trusted: TLC, prost, roaring, the run embeddings as faithful witnesses of u64 behaviour; domain: distinct ids < u64::MAX "
+             "(tombstone), sorted select offsets, in-range slices; OffsetMapper::map_offset is checked in the same run against OffsetMapOps.tla (C15)",
+        technique="TLA+ operator semantics + TLC model check of the structural model; exhaustive implementation replay validated by TLC trace checking"),
+    "C30": dict(category="model_checking",
+        text="TLC checks (a) the coalesce/split/un-coalesce design (IoSchedOps/IoSched ops mode): one buffer per requested "
+             "range, in order, equal to the file slice, on the complete universe of range lists (<=3 ranges over 12 bytes, "
+             "<=4 over 6 bytes; block 0/2/4, max_iop 3/5/16MiB, read_chunk 4/default), and (b) the I/O queue machine "
+             "(IoSched queue mode): NoOverIssue, EachRequestOnce, exact byte accounting, budget exceeded only via the "
+             "priority bypass, close cancels pending, deadlock freedom and submitted ~> resolved under weak fairness with "
+             "adversarial heap tie-breaks. The real FileScheduler::submit_request / LanceEncodingsIo::submit_request are "
+             "called on the same universe and every call is judged by TLC; TLC-generated schedules are forced onto a real "
+             "ScanScheduler through a driver-owned object store and every recorded Submit/Issue/Complete/Resolved/Close/"
+             "quiescence event is replayed on the queue machine (Trace_IoSched.tla).",
+        design_ref="DESIGN.md 3.8, 5 (C30), 8 (#7)",
+        note="scaled-down sizes; current-thread runtime, completion order chosen by the driver, hangs observed by bounded "
+             "executor turns; store errors/retries, the process-wide iops quota and multi-threaded runs not covered; unsorted "
+             "range lists are a known finding; a consumer dropping a request future is outside the property "
+             "(reported in evidence.beyond_property)",
+        technique="TLA+ operators + TLC exhaustive universe and queue-machine model checking (safety, deadlock, liveness); "
+                  "exhaustive / schedule replay on the implementation validated by TLC trace checking"),
+})
+
 PENDING_REASON = "not yet bound to the implementation by a registered check in this snapshot (see DESIGN.md status table)"
 
 ALL = ["C%02d" % i for i in range(1, 44)]
